@@ -360,6 +360,13 @@ func opaqueDoc(t *rapid.T) map[string]interface{} {
 		d["label"] = "hello"
 		d["nested"] = map[string]interface{}{"a": []interface{}{"x", float64(2)}}
 	}
+	if rapid.IntRange(0, 3).Draw(t, "opaqueEmptyValues") == 0 {
+		// members of the caller's own whose value is empty: they are content like any other (only the three sections
+		// mean the same empty as absent)
+		for _, name := range []string{"tags", "authentication", "meta", "note", "nothing"}[:rapid.IntRange(1, 5).Draw(t, "emptyValued")] {
+			d[name] = map[string]interface{}{"tags": []interface{}{}, "authentication": []interface{}{}, "meta": map[string]interface{}{}, "note": "", "nothing": nil}[name]
+		}
+	}
 	if rapid.IntRange(0, 4).Draw(t, "opaqueEmptySection") == 0 {
 		// a section given as an empty list is the same document as one without that section
 		d[rapid.SampledFrom([]string{"service", "publicKey"}).Draw(t, "emptySection")] = []interface{}{}
